@@ -32,6 +32,14 @@ type Interp struct {
 	below    func(field string) []absStack
 	// precisePrev: frames remember what they were pushed over (superset comparison of the SEN parser)
 	precisePrev bool
+	// buildKinds: the kind of the top of the build stack (key / map / other) is tracked
+	buildKinds bool
+	// selfEvents: build-stack operations and hand-offs (stores, callback calls, channel sends of a
+	// build-stack element) are recorded as events (chunk-independence comparison of a machine with itself)
+	selfEvents bool
+	nilTested  map[string]bool // untracked nilable receiver fields nil-tested by the dispatch function or what it calls
+	trackReads bool // record reads-before-write of tracked fields (liveness sampling)
+	noScratch  bool // scratch-buffer typestate is not followed (decided by the exploration of the machine alone)
 	undecided []string
 	maxDepth int
 	hook     *workCollector
@@ -259,6 +267,9 @@ func (in *Interp) exec0(s ast.Stmt, st *State) []Exit {
 	case *ast.SendStmt:
 		var out []Exit
 		for _, r := range in.eval(s.Value, st) {
+			if in.selfEvents && in.isBuildElem(s.Value, r.st) {
+				r.st.events = append(r.st.events, Event{Name: "OUT", Arg: "chan"})
+			}
 			out = append(out, Exit{st: r.st})
 		}
 		return out
@@ -377,6 +388,11 @@ func (in *Interp) execAssign(s *ast.AssignStmt, st *State) []Exit {
 				}
 				in.noteKeyPush(l, s.Rhs[i], s2)
 				in.buildAssign(l, s.Rhs[i], s2)
+				if in.selfEvents && in.isBuildElem(s.Rhs[i], s2) {
+					if f := in.fieldPath(l, s2); f != "" {
+						s2.events = append(s2.events, Event{Name: "OUT", Arg: f})
+					}
+				}
 				in.scratchAssign(l, s.Rhs[i], s2)
 				next = append(next, in.assignTo(l, c.vs[i], s2, s.Pos())...)
 			}
@@ -582,6 +598,14 @@ func (in *Interp) assignTo(lhs ast.Expr, v Val, st *State, pos token.Pos) []*Sta
 		if in.stackFld[f] {
 			in.undecide(pos, "container stack %s assigned a value of unrecognised form", f)
 			return nil
+		}
+		if in.nilTested[f] {
+			// remembered nil-ness of an untracked field (see cond)
+			if v.K == kNil || v.K == kNonNil {
+				st.fields[f] = v
+			} else {
+				delete(st.fields, f)
+			}
 		}
 		if in.tracked[f] {
 			if v.FromB {
@@ -1105,8 +1129,8 @@ func (in *Interp) execScan(s *ast.RangeStmt, st *State, bv Val) []Exit {
 			e := br.st.clone()
 			e.scan = &scanInfo{Base: base, Pass: pass, Kpos: kpos, Outcome: 'B', Break: br.b}
 			if kpos {
-				if e.remLo < base+1 {
-					e.remLo = base + 1
+				if !e.remAtLeast(base + 1) {
+					continue // the buffer ends before a byte could break the scan
 				}
 			}
 			out = append(out, Exit{st: e})
@@ -1194,6 +1218,22 @@ func (in *Interp) cond(e ast.Expr, st *State) []condRes {
 			}
 			return out
 		case token.EQL, token.NEQ, token.LSS, token.LEQ, token.GTR, token.GEQ:
+			if in.nilTested != nil && (x.Op == token.EQL || x.Op == token.NEQ) {
+				// nil test of a receiver field the machine does not track (a callback, a channel): its
+				// answer is the same through the whole parse, so the first answer is remembered
+				if f, ok := in.nilTestField(x, st); ok {
+					if v, has := st.fields[f]; has && (v.K == kNil || v.K == kNonNil) {
+						return []condRes{{st, (v.K == kNil) == (x.Op == token.EQL)}}
+					}
+					t, fl := st.clone(), st
+					if x.Op == token.EQL {
+						t.fields[f], fl.fields[f] = Val{K: kNil}, Val{K: kNonNil}
+					} else {
+						t.fields[f], fl.fields[f] = Val{K: kNonNil}, Val{K: kNil}
+					}
+					return []condRes{{t, true}, {fl, false}}
+				}
+			}
 			var out []condRes
 			for _, l := range in.eval(x.X, st) {
 				for _, r := range in.eval(x.Y, l.st) {
@@ -1212,7 +1252,13 @@ func (in *Interp) cond(e ast.Expr, st *State) []condRes {
 		if r.v.Stale {
 			r.st.readStale = append(r.st.readStale, in.prog.Pos(e.Pos())+" condition")
 		}
-		out = append(out, condRes{r.st.clone(), true}, condRes{r.st, false})
+		t, f := r.st.clone(), r.st
+		if in.selfEvents {
+			pos := in.prog.Pos(e.Pos())
+			t.decisions = append(append([]string{}, t.decisions...), pos+"=1")
+			f.decisions = append(append([]string{}, f.decisions...), pos+"=0")
+		}
+		out = append(out, condRes{t, true}, condRes{f, false})
 	}
 	return out
 }
@@ -1274,7 +1320,13 @@ func (in *Interp) compare(op token.Token, l, r Val, st *State, at ast.Expr) []co
 		if l.Stale || r.Stale {
 			st.readStale = append(st.readStale, in.prog.Pos(at.Pos())+" comparison")
 		}
-		return []condRes{{st.clone(), true}, {st, false}}
+		t, f := st.clone(), st
+		if in.selfEvents {
+			pos := in.prog.Pos(at.Pos())
+			t.decisions = append(append([]string{}, t.decisions...), pos+"=1")
+			f.decisions = append(append([]string{}, f.decisions...), pos+"=0")
+		}
+		return []condRes{{t, true}, {f, false}}
 	}
 	if l.K == kConst && r.K == kConst {
 		if l.C.Kind() == r.C.Kind() || (l.C.Kind() != constant.String && r.C.Kind() != constant.String && l.C.Kind() != constant.Bool && r.C.Kind() != constant.Bool) {
@@ -1493,6 +1545,9 @@ func (s *State) markAssigned(f string) {
 // content was already consumed (or is left over from a previous call) without
 // truncating it first prepends stale bytes to the next token.
 func (in *Interp) scratchAssign(lhs, rhs ast.Expr, st *State) {
+	if in.noScratch {
+		return
+	}
 	f := in.fieldPath(lhs, st)
 	if f == "" || !in.scratch[f] {
 		return
@@ -1524,6 +1579,9 @@ func (in *Interp) scratchAssign(lhs, rhs ast.Expr, st *State) {
 // scratchConsume marks a scratch buffer as consumed when it is converted to a
 // string-like value (the token is complete).
 func (in *Interp) scratchConsume(arg ast.Expr, st *State) {
+	if in.noScratch {
+		return
+	}
 	f := in.fieldPath(arg, st)
 	if f == "" || !in.scratch[f] {
 		return
@@ -1537,13 +1595,68 @@ func (in *Interp) scratchConsume(arg ast.Expr, st *State) {
 // buildAssign follows the kind of the top of the build stack (the []any /
 // []Node slice that values, keys and container placeholders are pushed on).
 func (in *Interp) buildAssign(lhs, rhs ast.Expr, st *State) {
-	if !in.precisePrev {
+	if !in.buildKinds {
 		return
 	}
 	f := in.fieldPath(lhs, st)
 	if f == "" || f != in.buildFld || in.buildFld == "" {
 		return
 	}
+	if in.selfEvents {
+		st.events = append(st.events, Event{Name: "B", Arg: in.buildOpName(f, rhs, st)})
+	}
+	in.buildAssign1(f, rhs, st)
+}
+
+// buildOpName names the syntactic form of a build-stack update.
+func (in *Interp) buildOpName(f string, rhs ast.Expr, st *State) string {
+	switch r := rhs.(type) {
+	case *ast.CallExpr:
+		if id, ok := r.Fun.(*ast.Ident); ok && id.Name == "append" && len(r.Args) == 2 && !r.Ellipsis.IsValid() {
+			t := in.info.TypeOf(r.Args[1])
+			if t != nil {
+				if n, ok := t.(*types.Named); ok && n.Obj().Name() == "Key" {
+					return "+key"
+				}
+				if _, isMap := t.Underlying().(*types.Map); isMap {
+					return "+map"
+				}
+				return "+val"
+			}
+			return "+?"
+		}
+		return "call"
+	case *ast.SliceExpr:
+		if r.High == nil {
+			return "slice"
+		}
+		if isZeroLit(r.High) {
+			return "reset"
+		}
+		if be, ok := ast.Unparen(r.High).(*ast.BinaryExpr); ok && be.Op == token.SUB && isOne(be.Y) {
+			if c, ok := ast.Unparen(be.X).(*ast.CallExpr); ok && len(c.Args) == 1 && in.fieldPath(c.Args[0], st) == f {
+				if cid, ok := c.Fun.(*ast.Ident); ok && cid.Name == "len" {
+					return "pop"
+				}
+			}
+		}
+		if c, ok := ast.Unparen(r.High).(*ast.CallExpr); ok {
+			if cid, ok := c.Fun.(*ast.Ident); ok && cid.Name == "cap" {
+				return "cap"
+			}
+		}
+		return "trunc"
+	}
+	return "?"
+}
+
+// isBuildElem: e is an element of the build stack (B[...]).
+func (in *Interp) isBuildElem(e ast.Expr, st *State) bool {
+	ix, ok := ast.Unparen(e).(*ast.IndexExpr)
+	return ok && in.buildFld != "" && in.fieldPath(ix.X, st) == in.buildFld
+}
+
+func (in *Interp) buildAssign1(f string, rhs ast.Expr, st *State) {
 	switch r := rhs.(type) {
 	case *ast.CallExpr:
 		id, ok := r.Fun.(*ast.Ident)
@@ -1640,4 +1753,38 @@ func (in *Interp) keyAssertion(e ast.Expr, st *State) (ok bool, known bool) {
 		return false, false
 	}
 	return st.bs == 'K', true
+}
+
+func isNilable(t types.Type) bool {
+	if t == nil {
+		return false
+	}
+	switch t.Underlying().(type) {
+	case *types.Signature, *types.Chan, *types.Pointer, *types.Map, *types.Interface, *types.Slice:
+		return true
+	}
+	return false
+}
+
+// nilTestField recognises `recv.f == nil` / `recv.f != nil` for an untracked
+// nilable receiver field.
+func (in *Interp) nilTestField(x *ast.BinaryExpr, st *State) (string, bool) {
+	isNil := func(e ast.Expr) bool {
+		tv, ok := in.info.Types[e]
+		return ok && tv.IsNil()
+	}
+	var other ast.Expr
+	switch {
+	case isNil(x.Y):
+		other = x.X
+	case isNil(x.X):
+		other = x.Y
+	default:
+		return "", false
+	}
+	f := in.fieldPath(other, st)
+	if f == "" || !in.nilTested[f] {
+		return "", false
+	}
+	return f, true
 }
